@@ -24,6 +24,7 @@ replaceAll) over oracles/reref.py; typed comparison of every result and of lastI
 """
 import collections
 import json
+import multiprocessing
 import os
 import random
 
@@ -193,7 +194,7 @@ def shared_context():
     context is re-judged in a fresh context before it is reported, and the context is renewed after it."""
     if _shared["ctx"] is None or _shared["uses"] >= 500:
         m = engine.load()
-        ctx = m.Context(time_limit=5)
+        ctx = m.Context(time_limit=TIME_LIMIT)
         ctx.eval(PRELUDE)
         _shared["ctx"] = ctx
         _shared["uses"] = 0
@@ -205,22 +206,40 @@ def drop_shared_context():
     _shared["ctx"] = None
 
 
-_slow = {"n": 0}  # scripts of this task that ran into the 5 s time limit or the CPU alarm
-MAX_SLOW_PER_TASK = 6  # a task gives up after that many (normal cases take ~1 ms); the run is then marked truncated
+# Circuit breaker for engines whose built-ins no longer terminate (normal cases take ~1 ms): scripts that run into
+# the time limit / CPU alarm are counted per task and, through a counter shared by the forked workers, per run;
+# beyond the bounds the remaining cases are skipped and the run is marked truncated (the timeouts themselves are
+# reported as violations).
+_slow = {"n": 0}
+MAX_SLOW_PER_TASK = 3
+MAX_SLOW_PER_RUN = 24
+_slow_run = multiprocessing.Value("i", 0)
+TIME_LIMIT = 3  # seconds per script (Context time_limit, wall clock)
+CPU_ALARM = 6  # seconds of CPU per script
+
+
+def _note_slow():
+    _slow["n"] += 1
+    with _slow_run.get_lock():
+        _slow_run.value += 1
+
+
+def _give_up():
+    return _slow["n"] > MAX_SLOW_PER_TASK or _slow_run.value > MAX_SLOW_PER_RUN
 
 
 def run_script(src, ctx=None):
     """-> ("ok", value) | ("err", exc_info); in a fresh context unless one is given"""
     m = engine.load()
     try:
-        with pool.cpu_alarm(10):
-            return ("ok", (ctx or m.Context(time_limit=5)).eval(src))
+        with pool.cpu_alarm(CPU_ALARM):
+            return ("ok", (ctx or m.Context(time_limit=TIME_LIMIT)).eval(src))
     except pool.HarnessTimeout:
-        _slow["n"] += 1
+        _note_slow()
         return ("err", {"cls": "HANG", "family": False, "message": "cpu alarm"})
     except Exception as e:
         if type(e).__name__ == "TimeLimitError":
-            _slow["n"] += 1
+            _note_slow()
         return ("err", engine.exc_info(e))
 
 
@@ -390,7 +409,8 @@ def judge_history(case, fast=False):
     else:
         # a host exception (or JSError) escaped eval: find the step by re-running prefixes
         step = len(case["ops"]) - 1
-        for j in range(1, len(case["ops"]) + 1):
+        slow = val.get("cls") in ("HANG", "TimeLimitError")  # do not repeat seconds-long runs to locate the step
+        for j in range(1, 1 if slow else len(case["ops"]) + 1):
             c2 = dict(case, ops=case["ops"][:j])
             st2, val2 = run_script(history_script(c2))
             if st2 != "ok":
@@ -760,7 +780,7 @@ def _hist_classes(res, case):
 
 
 def _record_history(res, case, keyed):
-    if _slow["n"] > MAX_SLOW_PER_TASK:
+    if _give_up():
         res["aborted"] = res.get("aborted", 0) + 1
         return
     mm, nontriv, oos = judge_history(case, True)
@@ -780,7 +800,8 @@ def _record_history(res, case, keyed):
             if sum(1 for x in res["mismatches"] if x.get("shrunk")) < MAX_SHRINKS_PER_TASK and not any(
                 x["signature"] == mm["signature"] for x in res["mismatches"]
             ):
-                mm = shrink_history(mm)
+                if "HANG" not in mm["signature"] and "TimeLimitError" not in mm["signature"]:
+                    mm = shrink_history(mm)
                 mm["shrunk"] = True
             res["mismatches"].append(mm)
         else:
@@ -825,7 +846,7 @@ def task_hist_seeded(task):
 
 
 def _record_method(res, case):
-    if _slow["n"] > MAX_SLOW_PER_TASK:
+    if _give_up():
         res["aborted"] = res.get("aborted", 0) + 1
         return
     mm, oos = judge_method(case, True)
@@ -856,7 +877,8 @@ def _record_method(res, case):
             if sum(1 for x in res["mismatches"] if x.get("shrunk")) < MAX_SHRINKS_PER_TASK and not any(
                 x["signature"] == mm["signature"] for x in res["mismatches"]
             ) and not mm["signature"].startswith("b|matcher"):
-                mm = shrink_method(mm)
+                if "HANG" not in mm["signature"] and "TimeLimitError" not in mm["signature"]:
+                    mm = shrink_method(mm)
                 mm["shrunk"] = True
             res["mismatches"].append(mm)
         else:
